@@ -3,6 +3,7 @@ package main
 import (
 	"encoding/json"
 	"fmt"
+	"math/big"
 	"math/rand"
 	"reflect"
 	"sort"
@@ -241,6 +242,36 @@ func c17Sort(items []ordItem, shuffleSeed int64) string {
 	return viol
 }
 
+// implSortKeys sorts the items with sort.Slice and the library's comparator and returns the keys of the
+// result in order ("nil" or the later instant in nanoseconds, as a decimal string).
+func implSortKeys(items []ordItem) (keys []string, pan string) {
+	type tagged struct {
+		it ap.Item
+		o  ordItem
+	}
+	tg := make([]tagged, len(items))
+	for i := range items {
+		tg[i] = tagged{items[i].item(), items[i]}
+	}
+	p, msg := guard(func() {
+		sort.Slice(tg, func(i, j int) bool { return ap.ItemOrderTimestamp(tg[i].it, tg[j].it) })
+	})
+	if p {
+		return nil, msg
+	}
+	for _, t := range tg {
+		isObj, k := t.o.key()
+		if !isObj {
+			keys = append(keys, "nil")
+			continue
+		}
+		n := new(big.Int).Mul(big.NewInt(k[0]), big.NewInt(1000000000))
+		n.Add(n, big.NewInt(k[1]))
+		keys = append(keys, n.String())
+	}
+	return keys, ""
+}
+
 func init() {
 	campaigns["C17"] = func(c *Ctx) {
 		pool := c17Pool(c.R, c.N(40, 120))
@@ -289,6 +320,19 @@ func init() {
 			c.Tag("sort")
 			if v := c17Sort(items, in["shuffle"].(int64)); v != "" {
 				c.Fail("C17/sort", v, in)
+			}
+			// the same list against the model's comparator-driven sort (C17_sort_sorts / C17_sort_any_permutation)
+			absItems := make([]interface{}, len(items))
+			for k := range items {
+				absItems[k] = items[k].abs()
+			}
+			sin := map[string]interface{}{"op": "orderSort", "items": absItems, "go": items}
+			if keys, pan := implSortKeys(items); pan != "" {
+				c.Emit(sin, "panic", true)
+				c.Fail("C17/panic", pan, sin)
+			} else {
+				c.Emit(sin, keys, true)
+				c.Tag("sort/model")
 			}
 		}
 	}
